@@ -531,14 +531,16 @@ def run_table_diff(pid, exe, chk, seed, violations, notes):
                           what='rejected although well-formed: ' + what)
 
 def with_limits(cases, seed):
-    """C01: spread the option space over the cases (allow_dtd x nodes_limit)."""
-    out = []
-    lim = [0, 1, 2, 7, 4294967295, 4294967295, 4294967295, 4294967295]
+    """C01: spread the option space over the cases (allow_dtd x nodes_limit): every case is kept as
+    it is, and every third one is run a second time under a small nodes_limit."""
+    out = list(cases)
+    lim = [0, 1, 2, 7, 3, 5, 12, 40]
     for k, c in enumerate(cases):
         f = c.split(' ')
-        if k % 3 == 0:
+        if k % 3 == 0 and len(f) > 4:
             f[3] = str(lim[(k // 3 + seed) % len(lim)])
-        out.append(' '.join(f))
+            f[1] = f[1] + '-L' + f[3]
+            out.append(' '.join(f))
     return out
 
 def foreign_disagreement(cfg, il, ml, txt):
